@@ -273,6 +273,9 @@ class Run:
         if last is not None:
             # the compile-level checks (C16/C17) also look at documents the state model cannot represent
             self.instance, self.init_state = last
+            if hdr is not None:
+                self.init_vals = dict(self.compiler.init_vals)
+                self.stoch_objs = list(self.compiler.sids.objs)
             self._emit_compile_lines()
         if hdr is None:
             # compile failed or the result is outside the model's types
@@ -320,7 +323,7 @@ class Run:
         rec.time_before = env.state.state.time
         self.cmds.append(f"ACT {a if a in (0, 1) else 2}")
         if len(self.snapshots) < 400:
-            self.snapshots.append((len(self.records), env.state.state, canon.state(env.state.state)))
+            self.snapshots.append((len(self.records), env.state.state, canon.state(env.state.state) + "|" + repr(env.state.state)))
         _REC.take()
         r, err = self._guard(lambda: env.step(a))
         rec.micro, rec.updates = _REC.take()
@@ -434,7 +437,7 @@ class Run:
         from jobshoplab.types.state_types import MachineStateState as MS, TransportStateState as TS
         st = env.state.state
         offers = list(env.state.possible_transitions)
-        text0 = canon.state(st)
+        text0 = canon.state(st) + "|" + repr(st)
         det = not self.stoch_objs
         # (1) repeatability with an offered conflict-free set
         chosen = conflict_free(offers, rnd)
@@ -445,7 +448,7 @@ class Run:
             r2 = self.records[-1].result
             if ok1 and ok2 and (r1.state != r2.state or r1.success != r2.success or r1.possible_transitions != r2.possible_transitions):
                 self.c20_findings.append({"sig": "same-step-twice-differs", "detail": f"{chosen}", "step": len(self.records)})
-            if canon.state(st) != text0 or env.state.state is not st:
+            if canon.state(st) + "|" + repr(st) != text0 or env.state.state is not st:
                 self.c20_findings.append({"sig": "input-state-mutated", "detail": f"{chosen}", "step": len(self.records)})
         # (2) atomic rejection: mix offered transitions with phase-invalid ones
         bad = []
@@ -475,7 +478,7 @@ class Run:
                     self.c20_findings.append({"sig": "rejected-action-had-effect",
                                               "detail": f"mix {mix}: success={r.success} same_state={r.state == st} offers={len(r.possible_transitions)}",
                                               "step": len(self.records)})
-            if canon.state(st) != text0:
+            if canon.state(st) + "|" + repr(st) != text0:
                 self.c20_findings.append({"sig": "input-state-mutated", "detail": "after rejected mix", "step": len(self.records)})
 
         # (3) multiplicity / competing offers: a second transition for a component that has just
@@ -496,7 +499,7 @@ class Run:
                 self.c20_findings.append({"sig": "rejected-action-had-effect",
                                           "detail": f"two transitions for {first.component_id} in one action {mix}: success={r.success}",
                                           "step": len(self.records)})
-            if canon.state(st) != text0:
+            if canon.state(st) + "|" + repr(st) != text0:
                 self.c20_findings.append({"sig": "input-state-mutated", "detail": "after duplicate/competing mix", "step": len(self.records)})
 
     def probe_env_failure(self):
@@ -533,7 +536,7 @@ class Run:
         env = self.env
         chosen = conflict_free(list(env.state.possible_transitions), rnd)
         if len(self.snapshots) < 400:
-            self.snapshots.append((len(self.records), env.state.state, canon.state(env.state.state)))
+            self.snapshots.append((len(self.records), env.state.state, canon.state(env.state.state) + "|" + repr(env.state.state)))
         ok = self.sm_step(chosen, tm=rnd.choice([1, 1, 2]), adopt=True)
         if not ok:
             return False
